@@ -41,6 +41,9 @@ type clonesIn struct {
 	BatchSizes     []int // forced batch sizes for the batched path
 	Reverse        bool  // reverse the fragment order before detection
 	Raw, LSH       bool
+	// opt-in savings for callers that do not read a part (nothing changes when they are absent):
+	Skip        []string // any of "std", "auto", "report_off": that part is not computed and its key is left out of the response
+	ShareReport bool     // when the service would not use LSH for this request anyway, report_off IS report_cfg (the same deterministic sequence) and is not run twice
 }
 
 type fragOut struct {
@@ -216,8 +219,16 @@ func init() {
 			}
 			out["raw"] = rs
 		}
-		out["std"] = conv(det.VerifStandard())
-		out["auto"] = conv(det.VerifAuto())
+		skip := map[string]bool{}
+		for _, k := range in.Skip {
+			skip[k] = true
+		}
+		if !skip["std"] {
+			out["std"] = conv(det.VerifStandard())
+		}
+		if !skip["auto"] {
+			out["auto"] = conv(det.VerifAuto())
+		}
 		bo := map[string][]pairOut{}
 		for _, bs := range in.BatchSizes {
 			mp := cfg.MaxClonePairs
@@ -250,7 +261,13 @@ func init() {
 			return map[string]any{"use_lsh": use, "detector": conv(pairs), "reported": do, "groups": len(groups)}
 		}
 		out["report_cfg"] = report(req.LSHEnabled)
-		out["report_off"] = report("false")
+		if !skip["report_off"] {
+			if in.ShareReport && !domain.ShouldUseLSH(req.LSHEnabled, len(frags), req.LSHAutoThreshold) {
+				out["report_off"] = out["report_cfg"]
+			} else {
+				out["report_off"] = report("false")
+			}
+		}
 		if in.LSH {
 			out["report_on"] = report("true")
 			det.VerifPrepare(frags)
